@@ -69,6 +69,19 @@ package tss
 //@      absfn("HashChallenge#1", absfn("Signature.R", sig), pk, msg) == nil && schnorrOK(absfn("Signature.R", sig), absfn("Signature.S", sig), absfn("HashChallenge#0", absfn("Signature.R", sig), pk, msg), pk, nil, nil)
 //@ func VerifyGroupSigningSignature
 //@ ensures err == nil <==> validGroupSig(groupPubKey, data, signature)
+// C03: the table-based Lagrange routine (precomputed prime factorisations) only covers member ids up to 20. The input
+// check accepts only duplicate-free committees that contain the member, and routes to the table routine only when
+// EVERY id of the committee is within the table (a committee mixing ids below and above 20 must take the general
+// routine: the table one indexes out of range and panics, so such a member's share could never be accepted).
+//@ func checkLagrangeInput
+//@ ensures err == nil ==> (exists j :: 0 <= j && j < len(memberList) && memberList[j] == mid)
+//@ ensures err == nil ==> (forall a, b :: 0 <= a && a < b && b < len(memberList) ==> memberList[a] != memberList[b])
+//@ ensures err == nil ==> (result <==> (forall j :: 0 <= j && j < len(memberList) ==> memberList[j] <= 20))
+//@ loop 0: invariant forall j :: 0 <= j && j < #i ==> has(seen, memberList[j])
+//@ loop 0: invariant forall x MemberID :: has(seen, x) ==> (exists j :: 0 <= j && j < #i && memberList[j] == x)
+//@ loop 0: invariant forall a, b :: 0 <= a && a < b && b < #i ==> memberList[a] != memberList[b]
+//@ loop 0: invariant optimizedable <==> (forall j :: 0 <= j && j < #i ==> memberList[j] <= 20)
+//@ loop 0: invariant isInList <==> (exists j :: 0 <= j && j < #i && memberList[j] == mid)
 // Lagrange coefficient of a member id within a set of ids (table / generic formula): abstract
 //@ func ComputeLagrangeCoefficient
 //@ abstract
@@ -98,3 +111,15 @@ package tss
 //@ func VerifyA0Signature
 //@ trusted
 //@ ensures err == nil <==> validA0Sig(mid, dkgContext, signature, a0Pub)
+
+// ---- C03/C04: well-formedness of encoded values (parsing is curve code: abstract) ---------------------------------
+// a well-formed signature is exactly 65 bytes: 33-byte compressed R followed by 32-byte S (schnorr.ParseSignature)
+//@ spec sigParses(s Signature) Bool uninterpreted
+//@ spec sigWellFormed(s Signature) Bool = len(s) == 65 && sigParses(s)
+//@ func (s Signature) Validate
+//@ trusted
+//@ ensures err == nil <==> sigWellFormed(s)
+//@ func (p Point) Validate
+//@ trusted
+//@ func (cs ComplaintSignature) Validate
+//@ trusted
